@@ -55,7 +55,14 @@ func NewRep(prop string) *Rep {
 }
 
 // Rule opens a rule; subsequent obligations are counted against its floor.
-func (r *Rep) Rule(id, engine, text string, floor int) {
+// Rule opens a rule. `confirmed` is the number of instances confirmed by reading the reference tree; the floor below which
+// the rule fails as vacuous is half of it (rounded up) for counts above two: a floor guards against a rule that silently
+// stopped matching, it must not fire because a refactoring legitimately removed one instance.
+func (r *Rep) Rule(id, engine, text string, confirmed int) {
+	floor := confirmed
+	if confirmed > 2 {
+		floor = (confirmed + 1) / 2
+	}
 	r.cur = &RuleInfo{ID: r.Prop + "." + id, Engine: engine, Text: text, Floor: floor}
 	r.Rules = append(r.Rules, r.cur)
 }
@@ -110,7 +117,7 @@ func (r *Rep) finish() {
 	for _, ri := range r.Rules {
 		if ri.Count < ri.Floor {
 			r.cur = ri
-			r.add("floor", "?", Undecided, fmt.Sprintf("vacuous: rule matched %d instances, floor confirmed by reading is %d", ri.Count, ri.Floor))
+			r.add("floor", "?", Undecided, fmt.Sprintf("vacuous: rule matched %d instances, the floor (half of what was confirmed by reading) is %d", ri.Count, ri.Floor))
 		}
 	}
 }
